@@ -331,8 +331,13 @@ class DNodes(list):
     """body lines of a DDDMP file: (id, info, then, else)"""
 
 
+class JNodes(list):
+    """node lines of a JSON dump: (id, level, low, high); low/high are
+    'T', 'F' or signed ids"""
+
+
 def fmt_arg(a):
-    if isinstance(a, DNodes):
+    if isinstance(a, (DNodes, JNodes)):
         return '[' + ','.join(f'{u}:{i}:{t}:{e}' for u, i, t, e in a) + ']'
     if isinstance(a, Spellings):
         return '[' + ','.join(x.encode().hex() for x in a) + ']'
@@ -370,6 +375,59 @@ def _keys(kind, ks):
 
 def _dict(kind, d):
     return {(vname(k) if kind == N else k): v for k, v in d.items()}
+
+
+class _in_dir:
+    """dd._copy creates its shelve directory in the current directory"""
+    def __init__(self, d):
+        self.d = d
+
+    def __enter__(self):
+        import os
+        self.old = os.getcwd()
+        os.chdir(self.d)
+
+    def __exit__(self, *exc):
+        import os
+        os.chdir(self.old)
+
+
+def read_json_dump(fn):
+    """(levels {vid: level} in file order, roots, JNodes) of a file written by dd._copy.dump_json"""
+    import json
+
+    def ref(x):
+        return x if x in ('T', 'F') else int(x)
+    lv, rt, ns = None, None, JNodes()
+    for line in open(fn):
+        line = line.rstrip()
+        if line in ('{', '}'):
+            continue
+        d = json.loads('{' + line.rstrip(',') + '}')
+        (k, v), = d.items()
+        if k == 'level_of_var':
+            lv = {vid(x): l for x, l in v.items()}
+        elif k == 'roots':
+            rt = {vid(x): u for x, u in v.items()} if isinstance(v, dict) else list(v)
+        else:
+            ns.append((int(k), int(v[0]), ref(v[1]), ref(v[2])))
+    return lv, rt, ns
+
+
+def write_json_dump(fn, lv, rt, ns):
+    """the text dd._copy.dump_json writes for these contents"""
+    import json
+
+    def ref(x):
+        return f'"{x}"' if x in ('T', 'F') else str(x)
+    roots = {vname(k): u for k, u in rt.items()} if isinstance(rt, dict) else list(rt)
+    with open(fn, 'w') as fd:
+        fd.write('{')
+        fd.write('\n"level_of_var": ' + json.dumps({vname(v): l for v, l in lv.items()}) +
+                 ',\n"roots": ' + json.dumps(roots))
+        for k, l, lo, hi in ns:
+            fd.write(f',\n"{k}": [{l}, {ref(lo)}, {ref(hi)}]')
+        fd.write('\n}\n')
 
 
 class Impl:
@@ -531,6 +589,38 @@ class Impl:
             srcm = 'a%d' % src
             f = self.handles[srcm][u]
             return self._h(m, self.amgr[srcm].copy(f, a))
+        if name == 'json_dump':
+            roots = args[0]
+            if isinstance(roots, dict):
+                nodes = {vname(k): H[h] for k, h in roots.items()}
+            else:
+                nodes = [H[h] for h in roots]
+            fn = self._path('dump', '.json')
+            with _in_dir(self.tmpdir):
+                try:
+                    a.dump(fn, nodes)
+                finally:
+                    del nodes
+            lv, rt, ns = read_json_dump(fn)
+            return Extra([[[v, l] for v, l in lv.items()],
+                          [[k, u] for k, u in rt.items()] if isinstance(rt, dict) else rt,
+                          [list(x) for x in ns]], [list(lv)])
+        if name == 'json_load':
+            import dd._copy as _c
+            lv, rt, ns, lo = args
+            fn = self._path('load', '.json')
+            write_json_dump(fn, lv, rt, ns)
+            with _in_dir(self.tmpdir):
+                if lo:
+                    got = _c.load_json(fn, a, load_order=True)
+                else:
+                    got = a.load(fn)
+            if isinstance(got, dict):
+                out = [[vid(k), self._h(m, f)] for k, f in got.items()]
+            else:
+                out = [self._h(m, f) for f in got]
+            del got
+            return out
         if name == 'add_expr':
             return self._h(m, a.add_expr(' '.join(args[0])))
         if name == 'to_expr':
